@@ -203,7 +203,13 @@ impl<'a> Tokenizer<'a> {
                 None => break,
             }
         }
-        match Decimal::from_str(&self.input[start..self.current()]) {
+        // Decimal::from_str stops reading once its precision is exhausted, which would let a
+        // malformed tail (`0.0000000000000000000000000001.2.3`, `...1e5`) through unnoticed
+        let text = &self.input[start..self.current()];
+        if !text.bytes().all(|b| b.is_ascii_digit() || b == b'.') || text.matches('.').count() > 1 {
+            return Err(Error::InvalidNumber(text.to_string()));
+        }
+        match Decimal::from_str(text) {
             Ok(val) => Ok(Token::Number(val, Span(start, self.current()))),
             Err(_) => Err(Error::InvalidNumber(
                 self.input[start..self.current()].to_string(),
